@@ -309,3 +309,29 @@ Proof.
   exists [(42, SPInf, 0); (7, SNum 1, 0)], [0%Q; (-1 # 2)%Q], [(42, SPInf, 0)].
   split; [vm_compute; reflexivity|]. exists (42, SPInf, 0). split; [left; reflexivity|reflexivity].
 Qed.
+
+Lemma selection_valid_softmax_l items n config_n keys :
+  NoDup (map r_id items) ->
+  let valid := filter (eligible softmax_mask) items in
+  let N := Z.of_nat (length valid) in
+  length keys = length valid ->
+  exists out, softmax_ranker items n config_n keys = Some (out, true) /\
+    NoDup (map r_id out) /\
+    (forall r, In r out -> In r items /\ eligible softmax_mask r = true) /\
+    Z.of_nat (length out) = rank_length n config_n N /\
+    (forall r kr r' kr', In (r, kr) (combine valid keys) -> In r out ->
+       In (r', kr') (combine valid keys) -> ~ In r' out -> (kr' <= kr)%Q).
+Proof. exact (selection_valid_rank_l softmax_mask softmax_len items n config_n keys softmax_len_spec). Qed.
+
+Lemma selection_valid_stochastic_l items n config_n keys :
+  NoDup (map r_id items) ->
+  let valid := filter (eligible stochastic_mask) items in
+  let N := Z.of_nat (length valid) in
+  length keys = length valid ->
+  exists out, stochastic_ranker items n config_n keys = Some (out, true) /\
+    NoDup (map r_id out) /\
+    (forall r, In r out -> In r items /\ eligible stochastic_mask r = true) /\
+    Z.of_nat (length out) = rank_length n config_n N /\
+    (forall r kr r' kr', In (r, kr) (combine valid keys) -> In r out ->
+       In (r', kr') (combine valid keys) -> ~ In r' out -> (kr' <= kr)%Q).
+Proof. exact (selection_valid_rank_l stochastic_mask stochastic_len items n config_n keys stochastic_len_spec). Qed.
